@@ -439,11 +439,15 @@ func renameFiles(h *history, f func(i int) string) {
 func runC08(c *Ctx) {
 	c.R.Rule = "histories with view-typed columns (strings, blobs, bits, sets) and zero timestamps x packet sizes around the driver's buffer sizes (4096, 256K) x pacing (later packets before / after the handler returns) x handler {reads, scribbles}; distinct = (column-type set class, packet-size class, pacing, scribble) with >= 2 deliveries"
 	r := c.Rng
+	provenanceCorrespondence(c)
 	base := libraryGoroutines()
-	n := c.N(10, 120)
+	n := c.N(7, 120)
 	for k := 0; k < n; k++ {
 		cfg := baseCfgs[k%len(baseCfgs)]
-		big := []int{0, 4000, 4090, 5000, 70000, 262000, 270000}[k%7]
+		big := []int{0, 4000, 4090, 5000, 262000, 70000, 270000}[k%7]
+		if !c.Thorough() && big == 270000 {
+			big = 4100
+		}
 		h := genAliasHistory(r, cfg, big)
 		h.encode(c)
 		if len(h.txs) < 2 {
@@ -454,6 +458,9 @@ func runC08(c *Ctx) {
 		exp := strs(h.expectedTxVals(c, h.txs, f0, uint32(o0)))
 		for _, scribble := range []bool{false, true} {
 			for _, ahead := range []bool{true, false} {
+				if !c.Thorough() && big >= 70000 && scribble == ahead {
+					continue
+				}
 				env, err := newE2E(h.tables, 5, nil)
 				if err != nil {
 					c.R.Notes = append(c.R.Notes, "cannot listen: "+err.Error())
@@ -592,6 +599,76 @@ func checkProvenance(c *Ctx, desc string, txs []*gobinlog.Transaction) {
 						spans = append(spans, span{lo, hi})
 					}
 				}
+			}
+		}
+	}
+}
+
+// provenanceCorrespondence: for arbitrary cells, the implementation's returned slice is the sub-slice
+// data[start:start+len] exactly when the model says "view", and otherwise overlaps neither the input nor the
+// ZeroTimestamp constant.
+func provenanceCorrespondence(c *Ctx) {
+	r := c.Rng
+	types := []byte{1, 2, 3, 4, 5, 7, 8, 9, 10, 11, 12, 13, 14, 15, 16, 17, 18, 19, 246, 247, 248, 249, 250, 251, 252, 253, 254, 255}
+	cases := genRawCells(c, types, c.N(3000, 60000))
+	// zero timestamps explicitly
+	for k := 0; k < 200; k++ {
+		d := make([]byte, 8)
+		copy(d[4:], r.Bytes(4))
+		cases = append(cases, rawCellCase{d, 0, []byte{7, 17}[k%2], uint16(k % 7), false, "raw/zero-timestamp"})
+	}
+	reqs := make([]vh.Val, len(cases))
+	for i, cs := range cases {
+		reqs[i] = vh.L(vh.A("cell_view"), vh.X(cs.data), vh.I(int64(cs.pos)), vh.I(int64(cs.typ)), vh.I(int64(cs.meta)))
+	}
+	resps := c.M.Batch(reqs)
+	zlo := uintptr(unsafe.Pointer(unsafe.SliceData(replication.ZeroTimestamp)))
+	zhi := zlo + uintptr(cap(replication.ZeroTimestamp))
+	for i, cs := range cases {
+		data := vh.Exact(cs.data)
+		var val []byte
+		ok := false
+		func() {
+			defer func() { recover() }()
+			v, _, err := replication.CellBytes(data, cs.pos, cs.typ, cs.meta, cs.uns)
+			if err == nil {
+				val, ok = v, true
+			}
+		}()
+		m := resps[i]
+		class := "provenance/fresh"
+		if m.Nth(0).Atom == "view" {
+			class = "provenance/view"
+		}
+		c.R.Count(fmt.Sprintf("%s/type%d", class, cs.typ))
+		if !ok {
+			if m.Nth(0).Atom == "view" {
+				c.R.Add(vh.Mismatch{Kind: "corr", What: "provenance: model says view but the implementation fails", Case: reqs[i].String(), Model: m.String()})
+			}
+			continue
+		}
+		dlo := uintptr(0)
+		if len(data) > 0 {
+			dlo = uintptr(unsafe.Pointer(unsafe.SliceData(data)))
+		}
+		dhi := dlo + uintptr(len(data))
+		vlo := uintptr(0)
+		if cap(val) > 0 {
+			vlo = uintptr(unsafe.Pointer(unsafe.SliceData(val)))
+		}
+		vhi := vlo + uintptr(len(val))
+		if m.Nth(0).Atom == "view" {
+			a, _ := m.Nth(1).Int()
+			n, _ := m.Nth(2).Int()
+			if int64(len(val)) != n || (n > 0 && vlo != dlo+uintptr(a)) {
+				c.R.Add(vh.Mismatch{Kind: "corr", What: "provenance: the delivered value is not the sub-slice the model names", Case: reqs[i].String(), Model: m.String(), Impl: fmt.Sprintf("len=%d offset=%d", len(val), int64(vlo)-int64(dlo))})
+			}
+		} else if len(val) > 0 {
+			if len(data) > 0 && vlo < dhi && dlo < vhi {
+				c.R.Add(vh.Mismatch{Kind: "corr", What: "provenance: a value the model calls fresh aliases the row image", Case: reqs[i].String(), Model: m.String(), Impl: fmt.Sprintf("offset=%d", int64(vlo)-int64(dlo))})
+			}
+			if vlo < zhi && zlo < vhi {
+				c.R.Add(vh.Mismatch{Kind: "spec", What: "isolation: a delivered value aliases the shared zero-timestamp constant", Case: reqs[i].String(), Impl: string(val), InDomain: true})
 			}
 		}
 	}
